@@ -151,9 +151,19 @@ func driveEqLaws(c *Ctx) error {
 			in := asL(j["input"])
 			seen := map[string]bool{}
 			results := []any{}
-			for rep := 0; rep < 3; rep++ {
+			rounds := 3
+			fixed, _ := j["reps"].([]any) // a representation per input (numbers tied in value but held at different precisions), tried repeatedly
+			if len(fixed) == len(in) {
+				rounds = 24
+			}
+			for rep := 0; rep < rounds; rep++ {
 				vals := concretizeArgs(in, rep)
-				if rep == 1 {
+				if len(fixed) == len(in) {
+					for i := range vals {
+						vals[i] = Concretize(asJ(in[i]), asI(fixed[i]))
+					}
+				}
+				if rep == 1 && len(fixed) != len(in) {
 					// mix representations within one input list
 					for i := range vals {
 						if i%2 == 1 {
@@ -177,7 +187,17 @@ func driveEqLaws(c *Ctx) error {
 					}
 				}
 			}
-			c.Out.Emit(J{"ev": "setperm", "input": projectArgs(concretizeArgs(in, 0)), "results": results})
+			inVals := concretizeArgs(in, 0)
+			if len(fixed) == len(in) {
+				for i := range inVals {
+					inVals[i] = Concretize(asJ(in[i]), asI(fixed[i]))
+				}
+			}
+			sev := J{"ev": "setperm", "input": projectArgs(inVals), "results": results}
+			if len(fixed) == len(in) {
+				sev["tied"] = true
+			}
+			c.Out.Emit(sev)
 		}
 		return nil
 	})
